@@ -108,6 +108,8 @@ impl RdfStore {
     /// Returns `true` if the triple was newly inserted, `false` if it already existed.
     pub fn insert(&self, triple: Triple) -> bool {
         let triple = Arc::new(triple);
+        #[cfg(grafeo_verif)]
+        grafeo_common::verif::yield_point("rdf.ins.check");
 
         // Check if already exists
         {
@@ -117,6 +119,8 @@ impl RdfStore {
             }
         }
 
+        #[cfg(grafeo_verif)]
+        grafeo_common::verif::yield_point("rdf.ins.primary");
         // Insert into primary storage. The write lock is held until the indexes are
         // updated too, so that concurrent insert/remove of the same triple cannot
         // interleave between the primary set and its indexes and leave them disagreeing.
@@ -160,6 +164,8 @@ impl RdfStore {
     ///
     /// Returns `true` if the triple was found and removed.
     pub fn remove(&self, triple: &Triple) -> bool {
+        #[cfg(grafeo_verif)]
+        grafeo_common::verif::yield_point("rdf.rem.primary");
         // Remove from primary storage; keep the write lock until the indexes are
         // updated as well (see insert()).
         let mut triples = self.triples.write();
